@@ -13,8 +13,12 @@ NOT_BUILT = "check not built yet in this session (planned in DESIGN.md §5); not
 def main() -> None:
     props = [json.loads(l) for l in open(os.path.join(HOME, "properties.jsonl"))]
     checks, na = [], []
+    ready = set(open(os.path.join(HOME, "vf", "checks", "ready.txt")).read().split())
     for p in props:
         pid = p["id"]
+        if pid not in ready:
+            na.append({"property_id": pid, "reason": NOT_BUILT})
+            continue
         try:
             mod = importlib.import_module("vf.checks." + pid.lower())
         except ModuleNotFoundError:
